@@ -689,3 +689,37 @@ def convert_sequence(ctx: Ctx) -> None:
             return
         raise AnalysisError(f"{cv.fq}: the conversion sequence contains steps that are not recognised: {[t.strip() for t in flat if t.strip().startswith(('other:', 'for ? in')) or '<' in t][:3]}")
     ctx.bad("R-ORDER", cv, title, f"a path does: {[t.strip() for t in (sorted(extra)[0] if extra else ())]}; expected: {[t.strip() for t in head + body + ['return RESULT']]}", node=cv.node)
+
+
+def wrappers(ctx: Ctx, direction: str) -> None:
+    """sm_to_ssc / ssc_to_sm are nothing but _convert with the format's classes, the caller's templates and policy: one path, one call, its
+    result returned as it is (no touching-up of the result afterwards)."""
+    from ..flow import call_args as _ca
+    from .tables import closed, sums_of as tsums
+    p = ctx.p
+    cv = p.func(f"{CV}:_convert")
+    spec = {"sm_to_ssc": ("SSCSimfile", "SSCChart", "{}"), "ssc_to_sm": ("SMSimfile", "SMChart", "invalid_property_behaviors")}
+    for name in (["sm_to_ssc", "ssc_to_sm"] if direction == "both" else [direction]):
+        f = p.func(f"{CV}:{name}")
+        src_p = f.param_names()[0]
+        sims, charts, pol = spec[name]
+        want = {"simfile": src_p, "output_simfile_type": sims, "output_chart_type": charts, "simfile_template": "simfile_template", "chart_template": "chart_template", "invalid_property_behaviors": pol}
+        sums = tsums(ctx, f)
+        good = bool(sums)
+        detail = []
+        for s_ in sums:
+            k_, v_ = s_.terminal()
+            v_ = closed(s_, v_) if v_ is not None else None
+            others = [e.text for e in s_.effects if e.kind in ("store", "aug", "delete", "expr", "raise", "yield")]
+            conds = sorted(s_.plain_assign())
+            ok = k_ == "return" and isinstance(v_, ast.Call) and callee(ctx, f, v_) is cv and not others and not conds
+            if ok:
+                am = {k: ast.unparse(x) for k, x in _ca(v_, cv).items()}
+                ok = all(am.get(k) == w or (w == "{}" and am.get(k) in ("{}", "dict()")) for k, w in want.items())
+                if not ok:
+                    detail.append(f"arguments {am}")
+            else:
+                detail.append(f"{k_} {ast.unparse(v_) if v_ is not None else ''}" + (f" after {others}" if others else "") + (f" under {conds}" if conds else ""))
+            good = good and ok
+        ctx.expect("R-FWD", f, f"{name} returns _convert(<source>, {sims}, {charts}, the caller's templates, " + ("an empty policy" if pol == "{}" else "the caller's policy") + ") unchanged, on its only path", good,
+                   f"{len(sums)} path(s)", f"{name} does: {'; '.join(detail)[:400]} - whatever is done to the result (or decided) outside _convert escapes the rules that are checked on _convert", node=f.node)
